@@ -294,11 +294,15 @@ PairsSpec == PairsInit /\ [][PairsNext]_nvars
 \* Proj: a larger input set (both children of the top connective may be compound: `(A and X) or (A and Y)`,
 \* where union() prefers the conjunctive form `A and (X or Y)`), each input projected on every variable
 Raw3    == Raw2 \cup { Mk(c, <<a, b>>) : c \in {"and", "or"}, a \in Raw1 \ Leafs, b \in Raw1 \ Leafs }
-Inputs3 == { Build(t) : t \in Raw3 }
+\* alternatives that become COMPARABLE only after a variable is eliminated: (a and b and c) or (a and b and d)
+Fam3    == { Mk("or", <<Mk("and", <<q[1], q[2], q[3]>>), Mk("and", <<q[1], q[2], q[4]>>)>>) :
+               q \in { z \in Leafs \X Leafs \X Leafs \X Leafs : Cardinality({z[1], z[2], z[3], z[4]}) = 4 } }
+Inputs3 == { Build(t) : t \in Raw3 \cup Fam3 }
 ProjInit == x \in Inputs3 /\ y = x /\ op = "init" /\ res = AnyM
 ProjNext == /\ op = "init"
             /\ \/ \E v \in Vars : op' = "exclude_" \o v /\ res' = Exclude(x, v)
                \/ \E v \in Vars : op' = "only_" \o v /\ res' = Only(x, {v})
+               \/ \E v \in Vars : op' = "onlynot_" \o v /\ res' = Only(x, Vars \ {v})      \* keep all variables but one
             /\ UNCHANGED <<x, y>>
 ProjSpec == ProjInit /\ [][ProjNext]_nvars
 
@@ -327,4 +331,5 @@ ResultNormal == op # "init" => NormalForm(res) \/ HasSingletonCompound(res)
 Projections == \A v \in Vars :
    /\ (op = "exclude_" \o v => v \notin VarsOf(res) /\ (v \notin VarsOf(x) => Den(res) = Den(x)))
    /\ (op = "only_" \o v => VarsOf(res) \subseteq {v} /\ Den(x) \subseteq Den(res) /\ (VarsOf(x) \subseteq {v} => Den(res) = Den(x)))
+   /\ (op = "onlynot_" \o v => v \notin VarsOf(res) /\ Den(x) \subseteq Den(res) /\ (v \notin VarsOf(x) => Den(res) = Den(x)))
 =============================================================================
